@@ -55,7 +55,7 @@ open Juno.C12
 /-- A run of the abstract system in which validator 0 decides value 8 at height 0: validators 0
 and 1 start, 0 proposes, both prevote and (seeing a polka that includes the Byzantine validator 3)
 lock and precommit, then 0 commits. -/
-theorem E4_run_decides : ∃ s, Reach E4 (fun _ => 0) s ∧ s.hist.decision 0 0 8 := by
+theorem E4_run_decides : ∃ s, Reach E4 (fun _ => 0) s ∧ s.hist.decision 0 0 0 8 := by
   have nb0 : ¬ E4.byz 0 := by show ¬ (0 = 3); decide
   have nb1 : ¬ E4.byz 1 := by show ¬ (1 = 3); decide
   have b3 : E4.byz 3 := rfl
@@ -71,7 +71,7 @@ theorem E4_run_decides : ∃ s, Reach E4 (fun _ => 0) s ∧ s.hist.decision 0 0 
   have r8 := Reach.step r7 (Step.commit _ 0 _ 0 8 nb0 rfl rfl
     (E4_quorum _ _ (Or.inr (Or.inl (Or.inr ⟨rfl, rfl, rfl, rfl⟩))) (Or.inr (Or.inr ⟨rfl, rfl, rfl, rfl⟩)) (Or.inl b3))
     rfl (Or.inr (Or.inr ⟨rfl, rfl, rfl, rfl⟩)))
-  exact ⟨_, r8, Or.inr ⟨rfl, rfl, rfl⟩⟩
+  exact ⟨_, r8, Or.inr ⟨rfl, rfl, rfl, rfl⟩⟩
 
 end Juno.C12.Abs
 
